@@ -204,6 +204,19 @@ def qb_check(case):
     if abs(q1[None] - q1[1e-6]) > SCS:
         return viol("value depends on the tol argument", site="quantum_value:tol", observed=q1[1e-6], expected=q1[None],
                     nontrivial=nontrivial)
+    # a LARGE validity tolerance (bigger than some of the probabilities) must not change the value of a valid game either
+    # (after seeded change C08-5: entries of the bias matrix up to tol were zeroed)
+    g, exc = call(XORGame, P, F, reps=1, tol=0.2)
+    qb = None
+    if exc is None:
+        qb, exc = call(g.quantum_value)
+    if exc is not None:
+        if is_solver_failure(exc):
+            return indet("solver failure inside quantum_value: " + exc_text(exc))
+        return viol("tol=0.2: " + exc_text(exc), site="quantum_value:tol", nontrivial=nontrivial)
+    if not (lo - SCS <= float(qb) <= hi + SCS):
+        return viol("quantum value outside the certified bracket when a large validity tolerance (0.2) is supplied", site="quantum_value:tol",
+                    observed=float(qb), expected=[lo, hi], nontrivial=nontrivial)
     # float-typed predicate matrix: same game, same value
     Ff = np.array(f, dtype=float)
     g, exc = call(XORGame, P, Ff)
@@ -529,7 +542,11 @@ def ct_check(case):
 
 # ================================================================================================ C08.bell_max
 MARG = [(0, 0, 0, 0), (1, 0, 0, 0), (0, 1, 0, 0), (0, 0, 1, 0), (0, 0, 0, -1), (-1, 0, -1, 0), (0, -1, 0, -1), (1, -1, 0, 0),
-        (1, 0, 0, -1)]
+        (1, 0, 0, -1),
+        # fractional marginal coefficients, used with dtype "mixed" (integer joint coefficients and outcome values, float marginals):
+        # added after seeded change C08-6, which folded the marginals into an integer-typed table
+        (0.5, 0, 0, 0), (0, 0, -0.75, 0), (0.5, -0.5, 0, 0.25), (1.5, 0, 0, 0.5)]
+FRAC_MARG = (9, 10, 11, 12)
 VALS = {"pm": (1, -1), "01": (0, 1)}
 QUICK_COMBOS = [(0, "pm", "pm"), (0, "01", "01"), (2, "01", "01"), (2, "pm", "01"), (4, "01", "01"), (4, "01", "pm"),
                 (5, "01", "01"), (5, "pm", "pm")]
@@ -549,8 +566,15 @@ def bm_cases(tier, seed):
                 yield {"j": jc, "m": m, "av": va, "bv": vb, "dtype": "int", "solver": None, "twice": jc % 27 == 13 and m == 0}
             if jc % 3 == 1:
                 yield {"j": jc, "m": 0, "av": "pm", "bv": "pm", "dtype": "float", "solver": None, "twice": False}
+            if jc % 3 == 0:
+                for m in FRAC_MARG[:2]:
+                    for va, vb in (("pm", "pm"), ("01", "pm")):
+                        yield {"j": jc, "m": m, "av": va, "bv": vb, "dtype": "mixed", "solver": None, "twice": False}
         else:
-            for m in range(len(MARG)):
+            for m in FRAC_MARG:
+                for va, vb in (("pm", "pm"), ("01", "pm"), ("01", "01")):
+                    yield {"j": jc, "m": m, "av": va, "bv": vb, "dtype": "mixed", "solver": None, "twice": False}
+            for m in range(len(MARG) - len(FRAC_MARG)):
                 for va in VALS:
                     for vb in VALS:
                         yield {"j": jc, "m": m, "av": va, "bv": vb, "dtype": "int", "solver": None, "twice": jc % 27 == 13 and m == 0}
@@ -568,8 +592,10 @@ def bm_check(case):
     mg = MARG[case["m"]]
     ac, bc = mg[:2], mg[2:]
     av, bv = VALS[case["av"]], VALS[case["bv"]]
-    dt = np.int64 if case["dtype"] == "int" else float
-    aJ, aac, abc, aav, abv = (np.array(t, dtype=dt) for t in (J, ac, bc, av, bv))
+    dt = np.int64 if case["dtype"] in ("int", "mixed") else float
+    mdt = float if case["dtype"] == "mixed" else dt
+    aJ, aav, abv = (np.array(t, dtype=dt) for t in (J, av, bv))
+    aac, abc = (np.array(t, dtype=mdt) for t in (ac, bc))
     snaps = snap(aJ, aac, abc, aav, abv)
     nontrivial = sum(1 for r in J for v in r if v) >= 2
     kw = {} if case["solver"] is None else {"solver_name": case["solver"]}
